@@ -122,9 +122,9 @@ class ResendRule(BaseRule):
                 return ret(AV("unk", sym="is_retry"))
             return ret()
         # ---- response
-        if t == "response.get_redirect_location":
+        if isinstance(f, ast.Attribute) and f.attr == "get_redirect_location" and recv is not None and recv.kind == "obj" and recv.val == "response":
             return ret(AV("unk", sym="location", tags=frozenset({"location"})))
-        if t == "response.drain_conn":
+        if isinstance(f, ast.Attribute) and f.attr == "drain_conn" and recv is not None and recv.kind == "obj" and recv.val == "response":
             s = st.copy()
             s.ts["drained"] = s.ts.get("drained", 0) + 1
             s.log(node, "DRAIN")
